@@ -371,6 +371,14 @@ func blockOnListChangeWorker(
 			unblockCh := ctx.cs.capture()
 			defer ctx.cs.releaseCapture()
 
+			// a close requested before the capture has posted nothing (there
+			// was nothing to unblock); one requested from here on finds the
+			// client captured and posts to unblockCh
+			if ctx.cs.client.IsCloseRequested() {
+				ctx.l.Tracef("client is closing, not waiting for list %s", keyNameStr())
+				return true
+			}
+
 			select {
 			case reason := <-unblockCh:
 				// abort this command - connectivity lost, or explicitly unblocked via another client
